@@ -18,16 +18,22 @@
 //                                   type (uint, OpaqueId<unsigned>, size_t, OpaqueId<size_t>, long long,
 //                                   short, signed char, int): truncation through narrower types
 //   range-wide:T=<type>,w=<width>   ranges whose SIZE is 2^31, 2^32-2, 2^32, 2^33+5 (+0..3): size, back,
-//                                   end-begin, [] and iterator +- at offsets {0,1,n/2,n-2,n-1}; no iteration
+//                                   end-begin, [] and iterator +- at offsets {0,1,n/2,n-2,n-1}; no iteration;
+//                                   64-bit counters: lower_bound / upper_bound / find_sorted ON the wide
+//                                   range at the same offsets and past the back, comparator call count <= 128
 //   int:<helper>                    ceil_div, LocalWorkCalculator, ipow, eumod, signum, clamp, ...
 //   int:eumod-inexact               eumod with tiny / ulp-adjacent numerators and non-dyadic denominators
 //                                   (double and float): 0 <= r < d and r within one ulp(d) of the exact
-//                                   remainder
+//                                   remainder; denominators {1,0.1,2pi,360,0.75,3} and the negative
+//                                   {-1,-0.1,-360} (weak claim: |r| < |d|, congruent within ulp(|d|))
 //   int:signum-clamp-minmax         ... + floating min/max on NaN/inf/denormals/signed zeros vs
 //                                   std::fmin/fmax (bits), identity of the object returned by the
 //                                   reference-returning integer min/max and by clamp vs std::
-//   span:n=<n>                      Span first/last/subspan for all (offset,count)
-//   hyperslab:N=<N>,shape=<idx>     HyperslabIndexer / InverseIndexer bijection, all shapes <= 4^N
+//   span:n=<n>                      Span first/last/subspan for all (offset,count); n >= 3: sub-views of a
+//                                   static-extent span (first<3>().subspan<1>() ...), Count == 0,
+//                                   fixed -> dynamic conversion, make_span(Array / C array)
+//   hyperslab:N=<N>,shape=<idx>     HyperslabIndexer / InverseIndexer bijection, all shapes <= 4^N, and the
+//                                   admitted end value to_coords(size) == (dims[0],0,..,0)
 //   ragged:N=<N>,shape=<idx>        RaggedRightIndexer / InverseIndexer bijection
 //   ugrid:<kind>,lo=..,hi=..,n=..   UniformGrid::operator[], find, find_interp at knots +-k ulp, ...
 //   ngrid:int,mask=<m> / ngrid:dbl,set=<k> / ngrid:dup,...   NonuniformGrid::find, find_interp
@@ -993,6 +999,61 @@ static void check_range_wide(vf::Run& R, char const* tname, unsigned long long w
                     ok = ok && ull(*(r.begin() + (DT)i)) == mask(b + (long long)i)
                          && ull(*(r.end() - (DT)(i + 1))) == mask(e - 1 - (long long)i);
             }
+            if (with_diff)
+            {
+                // (d2) binary searches over the wide range itself (len >= 2^31: half_positive and
+                // the difference_type arithmetic of lower/upper_bound_impl); the comparator
+                // counts its calls and aborts a degenerate (quasi-linear) search
+                struct TooMany
+                {
+                };
+                int calls = 0;
+                auto cmp = [&calls](T const& x, T const& y) {
+                    if (++calls > 128)
+                        throw TooMany{};
+                    return C::to_ll(x) < C::to_ll(y);
+                };
+                bool sok = true;
+                try
+                {
+                    for (unsigned long long i : {0ull, 1ull, n / 2, n - 2, n - 1})
+                    {
+                        T const v = C::from_ll(b + (long long)i);
+                        calls = 0;
+                        auto lb = celeritas::lower_bound(r.begin(), r.end(), v, cmp);
+                        sok = sok && (long long)(lb - r.begin()) == (long long)i
+                              && C::to_ll(*lb) == b + (long long)i;
+                        calls = 0;
+                        auto ub = celeritas::upper_bound(r.begin(), r.end(), v, cmp);
+                        sok = sok && (long long)(ub - r.begin()) == (long long)i + 1;
+                        calls = 0;
+                        auto fs = celeritas::find_sorted(r.begin(), r.end(), v, cmp);
+                        sok = sok && fs == lb;
+                        R.count("evaluations", 3);
+                    }
+                    // past the back / before the front
+                    calls = 0;
+                    sok = sok
+                          && celeritas::lower_bound(r.begin(), r.end(), C::from_ll(e), cmp) == r.end();
+                    calls = 0;
+                    sok = sok
+                          && celeritas::upper_bound(r.begin(), r.end(), C::from_ll(e - 1), cmp)
+                                 == r.end();
+                    calls = 0;
+                    sok = sok
+                          && celeritas::find_sorted(r.begin(), r.end(), C::from_ll(e), cmp) == r.end();
+                }
+                catch (TooMany const&)
+                {
+                    sok = false;
+                }
+                TAG("range:wide-search");
+                if (!sok)
+                    R.violation("range:wide-search", cid,
+                                fmt("range<%s>(%lld,%lld): lower_bound / upper_bound / find_sorted on "
+                                    "the range of %llu elements is wrong or needs > 128 comparisons",
+                                    tname, b, e, n));
+            }
             TAG("range:wide");
             if (!ok)
                 R.violation("range:wide", cid,
@@ -1338,10 +1399,14 @@ static void part_int_helpers(vf::Run& R)
             F const eps = std::numeric_limits<F>::epsilon();
             F const den = std::numeric_limits<F>::denorm_min();
             F const tiny = std::numeric_limits<F>::min();
+            // negative denominators (d2): the repaired correction works on |denom|; the claim for
+            // them is the weak one of int:eumod (|r| < |denom|, here additionally r >= 0 is NOT
+            // demanded) plus congruence within one ulp of |denom|
             std::vector<F> denoms = {F(1), F(0.1), F(6.283185307179586476925286766559L), F(360),
-                                     F(0.75), F(3)};
-            for (F d : denoms)
+                                     F(0.75), F(3), F(-1), F(-0.1), F(-360)};
+            for (F sd : denoms)
             {
+                F const d = std::fabs(sd);  // magnitude: numerators, ulp and reference use |denom|
                 F const ulp_d = std::nextafter(d, std::numeric_limits<F>::infinity()) - d;
                 std::vector<F> numers = {den, tiny, F(1e-30), F(1e-20), F(1e-10), eps / 4, eps / 2,
                                          eps, d * eps / 4, d * eps / 2, d * eps, d / 3, d / 2,
@@ -1358,7 +1423,9 @@ static void part_int_helpers(vf::Run& R)
                     for (int sgn : {1, -1})
                     {
                         F n = sgn * an;
-                        F got = eumod(n, d);
+                        F got = eumod(n, sd);
+                        if (sd < 0)
+                            TAG("eumod:inexact-neg-denom");
                         // reference: remainder in long double (fmodl is exact; one rounding
                         // at 2^-64 in the correction)
                         long double rl = std::fmod((long double)n, (long double)d);
@@ -1371,7 +1438,25 @@ static void part_int_helpers(vf::Run& R)
                             TAG("eumod:correction-exact-or-zero");
                         else
                             TAG("eumod:no-correction");
-                        F const f = std::fmod(n, d);  // exact by IEEE 754
+                        F const f = std::fmod(n, d);  // exact by IEEE 754 (sign of d is irrelevant)
+                        if (sd < 0)
+                        {
+                            // weak claim: reduced (|r| < |denom|) and congruent mod |denom|
+                            // within one ulp of |denom| (either representative r or r + |d|)
+                            long double e = std::fabs((long double)got - rl);
+                            if (got < 0)
+                                e = std::fabs((long double)got + (long double)d - rl);
+                            if (!(std::fabs(got) < d))
+                                R.violation("int:eumod-negdenom-not-reduced", cid,
+                                            fmt("eumod<%s>(%.17g, %.17g) -> %.17g: |result| >= |denom|",
+                                                tn, double(n), double(sd), double(got)));
+                            else if (std::min(e, (long double)d - e) > (long double)ulp_d)
+                                R.violation("int:eumod-negdenom-not-congruent", cid,
+                                            fmt("eumod<%s>(%.17g, %.17g) -> %.17g, exact remainder "
+                                                "%.21Lg mod |denom|",
+                                                tn, double(n), double(sd), double(got), rl));
+                            continue;
+                        }
                         if (got == d && f < 0 && -(long double)f <= (long double)ulp_d)
                         {
                             // the exact remainder d - |fmod| lies within one ulp below d: the
@@ -1613,7 +1698,27 @@ static void check_hyperslab(vf::Run& R)
                 c[i] = 0;
             }
         }
-        (void)ok;
+        if (ok)
+        {
+            // (d2) the precondition of the inverse indexer is `index <= size` (HyperslabIndexer.hh:
+            // 141): the one-past-the-end index is admitted and continues the C order, i.e. maps to
+            // (dims[0], 0, .., 0) - the coordinates the odometer would reach without its wrap
+            Array<size_type, N> ge = to_coords(size);
+            bool end_ok = ge[0] == dims[0];
+            for (size_type i = 1; i < N; ++i)
+                end_ok = end_ok && ge[i] == 0;
+            if (!end_ok)
+            {
+                std::string gs;
+                for (size_type i = 0; i < N; ++i)
+                    gs += std::to_string(ge[i]) + " ";
+                R.violation("hyperslab:end-index", cid,
+                            fmt("to_coords(size = %u) -> (%s), expected (dims[0] = %u, 0, ..)", size,
+                                gs.c_str(), dims[0]));
+            }
+            R.count("evaluations");
+            TAG("hyperslab:end-index");
+        }
         bool has_one = false;
         for (size_type i = 0; i < N; ++i)
             has_one |= dims[i] == 1;
@@ -1714,6 +1819,43 @@ static void part_indexers(vf::Run& R)
             Span<int const> cs = make_span(static_cast<std::vector<int> const&>(v));
             ok = ok && ms.size() == 8 && ms.data() == v.data() && cs.size() == 8;
             R.count("evaluations", 6);
+            // (d2) sub-views OF a static-extent span, Count == 0, fixed -> dynamic conversion,
+            // make_span(Array) / C array: subspan_extent's `extent - offset` branch, SpanImpl<T,0>
+            auto f3 = sp.first<3>();
+            auto t = f3.subspan<1>();
+            auto t11 = f3.subspan<1, 1>();
+            auto tl = f3.last<2>();
+            auto tf = f3.first(1);
+            Span<int> dyn(f3);
+            Span<int const> cdyn(t);
+            auto z0 = sp.first<0>();
+            auto z1 = sp.last<0>();
+            auto z2 = f3.subspan<3>();
+            static_assert(decltype(f3)::extent == 3 && decltype(t)::extent == 2
+                              && decltype(t11)::extent == 1 && decltype(tl)::extent == 2
+                              && decltype(z0)::extent == 0 && decltype(z2)::extent == 0,
+                          "static extents of sub-views");
+            ok = ok && f3.size() == 3 && f3.data() == buf + 1 && t.size() == 2 && t.data() == buf + 2
+                 && t.end() == buf + 4 && t11.size() == 1 && t11.data() == buf + 2 && tl.size() == 2
+                 && tl.data() == buf + 2 && tf.size() == 1 && tf.data() == buf + 1
+                 && dyn.size() == 3 && dyn.data() == buf + 1 && cdyn.size() == 2
+                 && cdyn.data() == buf + 2 && z0.size() == 0 && z0.empty() && z0.data() == buf + 1
+                 && z1.size() == 0 && z1.empty() && z1.data() == buf + 1 + n && z2.size() == 0
+                 && z2.data() == buf + 4 && z0.begin() == z0.end();
+            Array<int, 4> arr{{1, 2, 3, 4}};
+            auto as = make_span(arr);
+            auto as2 = as.subspan<2>();
+            auto cas = make_span(static_cast<Array<int, 4> const&>(arr));
+            auto cs3 = make_span(buf);
+            static_assert(decltype(as)::extent == 4 && decltype(as2)::extent == 2
+                              && decltype(cas)::extent == 4 && decltype(cs3)::extent == 8,
+                          "static extents of make_span");
+            ok = ok && as.size() == 4 && as.data() == arr.data() && as2.size() == 2
+                 && as2.data() == arr.data() + 2 && &as2.back() == arr.data() + 3 && cas.size() == 4
+                 && cas.data() == arr.data() && cs3.size() == 8 && cs3.data() == buf
+                 && cs3.last<3>().data() == buf + 5;
+            R.count("evaluations", 14);
+            TAG("span:static-extent-subviews");
         }
         if (!ok)
             R.violation("span:subviews", cid, fmt("Span of size %zu: a sub-view is wrong", n));
